@@ -48,18 +48,25 @@ def base_env():
     return env
 
 
-def bin_path(mode):
+def bin_path(mode, bin="tv"):
+    if mode == "memcheck":
+        mode = "rel"
     tc, profile, _, extra = MODES[mode]
     d = "debug" if profile == "dev" else "release"
     if "--target" in extra:
-        return os.path.join(BUILD, mode, TARGET, d, "tv")
-    return os.path.join(BUILD, mode, d, "tv")
+        return os.path.join(BUILD, mode, TARGET, d, bin)
+    return os.path.join(BUILD, mode, d, bin)
 
 
-def build(mode):
-    """(Re)build the harness + /repo's current tree in `mode`. Returns the binary path."""
+def build(mode, bins=("tv",)):
+    """(Re)build the harness + /repo's current tree in `mode`."""
     if mode == "memcheck":
-        return build("rel")
+        return build("rel", bins)
+    for b in bins:
+        _build(mode, b)
+
+
+def _build(mode, bin):
     tc, profile, flags, extra = MODES[mode]
     os.makedirs(BUILD, exist_ok=True)
     os.makedirs(LOGS, exist_ok=True)
@@ -70,33 +77,52 @@ def build(mode):
         cmd.append("+" + tc)
     if mode == "miri":
         # build (and cache) by running a no-op engine once
-        cmd += ["miri", "run", "--target-dir", os.path.join(BUILD, mode), "--", "noop"]
+        cmd += ["miri", "run", "--bin", bin, "--target-dir", os.path.join(BUILD, mode), "--", "noop"]
         env["MIRIFLAGS"] = MIRI_BASE
     else:
-        cmd += ["build", "--target-dir", os.path.join(BUILD, mode)]
+        cmd += ["build", "--bin", bin, "--target-dir", os.path.join(BUILD, mode)]
         if profile == "release":
             cmd.append("--release")
         cmd += extra
     t0 = time.time()
     p = subprocess.run(cmd, cwd=HARNESS, env=env, stdout=subprocess.PIPE, stderr=subprocess.STDOUT, text=True)
-    log = os.path.join(LOGS, "build-%s.log" % mode)
+    log = os.path.join(LOGS, "build-%s-%s.log" % (mode, bin))
     with open(log, "w") as f:
         f.write(p.stdout)
     if p.returncode != 0:
         raise Inconclusive("build of mode %s failed (see %s): %s" % (mode, log, p.stdout[-600:]))
-    sys.stderr.write("[build %s %.1fs]\n" % (mode, time.time() - t0))
-    return bin_path(mode) if mode != "miri" else None
+    sys.stderr.write("[build %s/%s %.1fs]\n" % (mode, bin, time.time() - t0))
+
+
+def build_all(pairs):
+    """Build (mode, bin) pairs; different modes in parallel (separate target dirs)."""
+    by_mode = {}
+    for m, b in pairs:
+        m = "rel" if m == "memcheck" else m
+        by_mode.setdefault(m, [])
+        if b not in by_mode[m]:
+            by_mode[m].append(b)
+    errs = []
+
+    def one(item):
+        m, bins = item
+        try:
+            build(m, tuple(bins))
+        except Inconclusive as e:
+            errs.append(str(e))
+    with cf.ThreadPoolExecutor(max_workers=4) as ex:
+        list(ex.map(one, sorted(by_mode.items())))
+    if errs:
+        raise Inconclusive("; ".join(errs))
 
 
 def setup(modes):
-    rc = 0
-    for m in modes:
-        try:
-            build(m)
-        except Inconclusive as e:
-            print("setup: %s" % e)
-            rc = 1
-    return rc
+    try:
+        build_all([(m, b) for m in modes for b in ("tv", "tvs")])
+    except Inconclusive as e:
+        print("setup: %s" % e)
+        return 1
+    return 0
 
 
 # ------------------------------------------------------------------------------------------------
@@ -105,8 +131,9 @@ def setup(modes):
 
 class Job:
     def __init__(self, mode, args, label=None, san_props=(), crash_props=(), timeout=900, miri_seed=None, tb=False,
-                 miri_extra="", env=None, expect_rc=(0,), valgrind_args=None):
+                 miri_extra="", env=None, expect_rc=(0,), valgrind_args=None, bin="tv"):
         self.mode = mode
+        self.bin = bin
         self.args = [str(a) for a in args]
         self.label = label or (mode + ":" + " ".join(self.args))
         self.san_props = tuple(san_props)
@@ -132,18 +159,18 @@ class Job:
                 flags += " " + self.miri_extra
             env["MIRIFLAGS"] = flags
             env["RUSTFLAGS"] = MODES["miri"][2]
-            cmd = ["cargo", "+nightly", "miri", "run", "-q", "--target-dir", os.path.join(BUILD, "miri"), "--"] + self.args
+            cmd = ["cargo", "+nightly", "miri", "run", "-q", "--bin", self.bin, "--target-dir", os.path.join(BUILD, "miri"), "--"] + self.args
             return cmd, env, HARNESS
         if self.mode == "memcheck":
             cmd = ["valgrind", "--error-exitcode=99", "--leak-check=full", "--errors-for-leak-kinds=definite,indirect",
-                   "--num-callers=30", "-q"] + self.valgrind_args + [bin_path("rel")] + self.args
+                   "--num-callers=30", "-q"] + self.valgrind_args + [bin_path("rel", self.bin)] + self.args
             return cmd, env, HARNESS
         if self.mode == "asan":
             env.setdefault("ASAN_OPTIONS", "detect_leaks=1:halt_on_error=1:abort_on_error=0:exitcode=98:detect_stack_use_after_return=0")
             env.setdefault("LSAN_OPTIONS", "exitcode=97")
         if self.mode == "tsan":
             env.setdefault("TSAN_OPTIONS", "halt_on_error=1:exitcode=66:second_deadlock_stack=1")
-        return [bin_path(self.mode)] + self.args, env, HARNESS
+        return [bin_path(self.mode, self.bin)] + self.args, env, HARNESS
 
 
 class Result:
@@ -308,8 +335,7 @@ def run_check(prop, tier, seed, plan):
     level = plan.level
     try:
         jobs = plan.jobs(tier, seed)
-        for m in sorted(set(j.mode for j in jobs), key=lambda m: (m != "dbg", m)):
-            build(m)
+        build_all(sorted(set((j.mode, j.bin) for j in jobs)))
     except Inconclusive as e:
         print("INCONCLUSIVE property=%s %s" % (prop, e))
         return 2
@@ -322,7 +348,7 @@ def run_check(prop, tier, seed, plan):
         for v in list(r.viols):
             if v.get("aliasing") and r.job.mode == "miri":
                 other = Job("miri", r.job.args, label=r.job.label + " [other aliasing model]", san_props=r.job.san_props,
-                            timeout=r.job.timeout, miri_seed=r.job.miri_seed, tb=not r.job.tb, miri_extra=r.job.miri_extra)
+                            timeout=r.job.timeout, miri_seed=r.job.miri_seed, tb=not r.job.tb, miri_extra=r.job.miri_extra, bin=r.job.bin)
                 r2 = run_job(other)
                 if any(x.get("source") == "sanitizer" for x in r2.viols):
                     v["msg"] += " (rejected under both Stacked Borrows and Tree Borrows)"
